@@ -85,6 +85,8 @@ def run(chk: Check) -> None:
     _whole_collections(chk, schema, pf, msgs)
     _fresh_objects(chk, schema, pf)
     _presence_flag(chk, pf)
+    _submessage_presence(chk, schema, pf, msgs)
+    _write_conditions(chk, schema, pf, msgs)
     _writer_agreement(chk, schema, pf, msgs)
     _reader_agreement(chk, schema, pf, msgs)
     _enums(chk, schema, pf)
@@ -741,7 +743,7 @@ def _header(chk: Check) -> None:
     for n in walk_no_nested(save.node):
         if isinstance(n, ast.Call) and isinstance(n.func, ast.Attribute) and n.func.attr == "write" \
                 and attr_path(n.func.value) == (stream,) and n.args:
-            writes.append((n.lineno, n.col_offset, _const_bytes(n.args[0], save, repo), n))
+            writes.append((0, n._ord, _const_bytes(n.args[0], save, repo), n))
     writes.sort(key=lambda x: x[:2])
     seq = [w[2] for w in writes]
     # fold to: magic, zero, zero, version, message
@@ -777,7 +779,7 @@ def _header(chk: Check) -> None:
                     size = len(b) if isinstance(b, bytes) else unparse(a)
                 else:
                     size = unparse(a)
-            reads.append((n.lineno, n.col_offset, size, n))
+            reads.append((0, n._ord, size, n))
     reads.sort(key=lambda x: x[:2])
     sizes = [r[2] for r in reads]
     ok = sizes == [5, 1, 1, 1, "rest"]
@@ -1036,6 +1038,101 @@ def _fresh_objects(chk: Check, schema: Schema, pf: ProtoFlow) -> None:
                    "entry; '%s' is bound %d time(s) in the loop (%s): entries can end up sharing one "
                    "object" % (r.msg, r.field, v.id, len(binds),
                                "; ".join(unparse(b)[:50] for b in binds)), 2)
+
+
+def _write_conditions(chk: Check, schema: Schema, pf: ProtoFlow, msgs: List[str]) -> int:
+    """R02.2: a field is written whenever the object has a value for it.  The only conditions a
+    writer may put in front of a field write are presence tests (``x is not None``) and kind
+    dispatch (``isinstance``); any other condition silently drops state for some objects."""
+    n = 0
+    flows: Dict[str, CFG] = {}
+    for m in msgs:
+        msg = schema.messages.get(m)
+        if msg is None:
+            continue
+        for fname in msg.fields:
+            if (m, fname) in (("AuxData", "data"), ("AuxData", "type_name")):
+                continue        # the raw-reuse typestate rule (C14) decides these
+            for w in pf.written(m, fname):
+                f = w.f
+                if f.name not in ("_to_protobuf", "_write_protobuf_aux_data") and "to_proto" not in f.name:
+                    continue
+                cfg = flows.get(f.qualname)
+                if cfg is None:
+                    cfg = flows[f.qualname] = CFG(f.node)
+                try:
+                    node = cfg.node_of(w.node)
+                except AnalysisError:
+                    continue
+                bad = []
+                for t, v in cfg.facts_at(node):
+                    if isinstance(t, ast.stmt):
+                        continue            # "the loop has another element"
+                    if isinstance(t, ast.Compare) and len(t.ops) == 1 and isinstance(t.ops[0], (ast.Is, ast.IsNot)) \
+                            and any(isinstance(x, ast.Constant) and x.value is None for x in (t.left, t.comparators[0])):
+                        continue
+                    if isinstance(t, ast.Call) and attr_path(t.func) == ("isinstance",):
+                        continue
+                    if attr_path(t) is not None and v:
+                        continue            # ``if label:`` — presence by truthiness (R03.3 keeps
+                        #                      the model classes from being falsy)
+                    bad.append("%s is %s" % (unparse(t)[:50], v))
+                n += 1
+                chk.ob("R02.2", "%s.%s@%s:written-unconditionally" % (m, fname, f.qualname), not bad, w.loc,
+                       "%s writes %s.%s only when %s: objects for which that does not hold lose the "
+                       "field in the saved message" % (f.qualname, m, fname, " and ".join(bad)), 2)
+    return n
+
+
+def _submessage_presence(chk: Check, schema: Schema, pf: ProtoFlow, msgs: List[str]) -> int:
+    """R02.3: whether an optional sub-message is present is decided by HasField / WhichOneof,
+    never by its content: a present sub-message whose fields all hold their default value has no
+    listed fields, zero size and (pure-python backend) compares equal to an empty one"""
+    n = 0
+    for m in msgs:
+        msg = schema.messages.get(m)
+        if msg is None:
+            continue
+        for fname, fld in msg.fields.items():
+            if fld.label or fld.type not in schema.messages:
+                continue
+            for r in pf.read(m, fname):
+                if r.how != "load":
+                    continue
+                # is this read (or something computed from it) what a test decides on?
+                cur = r.node
+                par = getattr(cur, "_parent", None)
+                in_test = False
+                while par is not None and not isinstance(par, ast.stmt):
+                    if isinstance(par, (ast.IfExp,)) and par.test is cur:
+                        in_test = True
+                        break
+                    if isinstance(par, ast.Attribute) and par.value is cur and par.attr not in (
+                            "ListFields", "ByteSize", "SerializeToString", "IsInitialized"):
+                        break       # a field of the sub-message is read, not its presence
+                    cur, par = par, getattr(par, "_parent", None)
+                if not in_test and isinstance(par, (ast.If, ast.While)) and par.test is cur:
+                    in_test = True
+                if not in_test and isinstance(par, ast.Assign) and len(par.targets) == 1 and \
+                        isinstance(par.targets[0], ast.Name) and par.value is r.node:
+                    # ``lbl = edge.label`` / ``if lbl.ListFields():``
+                    nm = par.targets[0].id
+                    for t in walk_no_nested(r.f.node):
+                        test = t.test if isinstance(t, (ast.If, ast.IfExp, ast.While)) else None
+                        if test is None:
+                            continue
+                        for x in ast.walk(test):
+                            if isinstance(x, ast.Name) and x.id == nm:
+                                px = getattr(x, "_parent", None)
+                                if not (isinstance(px, ast.Attribute) and px.attr not in (
+                                        "ListFields", "ByteSize", "SerializeToString", "IsInitialized")):
+                                    in_test = True
+                n += 1
+                chk.ob("R02.3", "%s.%s@%s:presence-by-HasField" % (m, fname, r.f.qualname), not in_test, r.loc,
+                       "%s decides whether %s.%s is present from its content (%s): a present "
+                       "sub-message with all-default fields would read as absent; use HasField('%s')"
+                       % (r.f.qualname, m, fname, unparse(par)[:60] if par is not None else "", fname), 2)
+    return n
 
 
 def _presence_flag(chk: Check, pf: ProtoFlow) -> None:
